@@ -148,6 +148,20 @@ type Result struct {
 	Events     []*PubRecord
 	Gens       []*Generation
 	StateHash  string
+	sim        *Sim
+}
+
+// Release drops what the run holds on to. Goroutines left behind by a simulated process death
+// stay blocked for ever and keep the Sim reachable; emptying it keeps their cost to a stack each.
+func (r *Result) Release() {
+	if s := r.sim; s != nil {
+		s.ops, s.events, s.media, s.chain, s.gens, s.cur, s.in = nil, nil, nil, nil, nil, nil, nil
+		s.counter, s.viols, s.faults, s.pointCnt, s.sfaults, s.constraint = nil, nil, nil, nil, nil, nil
+		if s.sched != nil {
+			s.sched.lines, s.sched.tasks, s.sched.parked, s.sched.choices = nil, nil, nil, nil
+		}
+	}
+	r.Ops, r.Media, r.Events, r.Gens, r.Lines, r.sim = nil, nil, nil, nil, nil, nil
 }
 
 func (s *Sim) count(k string)         { s.counter[k]++ }
@@ -274,6 +288,7 @@ func Run(t *testing.T, in *Input, target string, keepLog bool) (res *Result) {
 		Media:      s.media,
 		Events:     s.events,
 		Gens:       s.gens,
+		sim:        s,
 	}
 	if keepLog {
 		res.Lines = s.sched.lines
@@ -445,7 +460,7 @@ func (s *Sim) startGeneration(idx int) {
 	s.cur = g
 	cache := s.in.Cfg.CacheSize
 	if cache < 1 {
-		cache = 1024
+		cache = largeCache
 	}
 	compiler := command.NewCompiler(cache)
 	for i, m := range s.media {
